@@ -26,8 +26,10 @@ func VerifReset() {
 	for k, v := range verifPermissionsMap {
 		permissionsMap[k] = append([]string{}, v...)
 	}
-	// the semaphore must be a channel of the current bubble
-	hashSemaphore = make(chan struct{}, 64)
+	// the semaphore must be a channel of the current bubble; its size is
+	// that of a two-core server (GOMAXPROCS slots), so that a slot that is
+	// not given back is missed after two logins, not after sixty-four
+	hashSemaphore = make(chan struct{}, 2)
 	udpMux = nil
 }
 
